@@ -561,6 +561,7 @@ def c05_worker(res: Result, i: int, n: int) -> None:
                 distinct.add(hashlib.sha256(cls.__module__.encode() + cls.__name__.encode() + wire).digest()[:12])
             if res.counters["cases"] % 4001 == 1:
                 res.sample({"class": walk.class_path(cls), "tree": tree, "wire": wire})
+        _c05_accepted_inputs(res, cls, spec, rng, 40 if res.tier == "quick" else 600)
         # idempotence on non-canonical but conforming input (explicit defaults, unknown tags)
         if spec.flexible:
             g2 = gen.Gen(rng, "wire", unknown_tags=True)
@@ -571,6 +572,47 @@ def c05_worker(res: Result, i: int, n: int) -> None:
         res.count("classes")
     res.coverage["lossy_prone_values"] = lossy
     res.coverage["distinct_nontrivial_encodings"] = len(distinct)
+
+
+def _c05_accepted_inputs(res: Result, cls: type, spec: describe.StructSpec, rng, n: int) -> None:  # noqa: ANN001
+    """'Whatever the decoder returns is accepted by the encoder, and decode-then-encode is idempotent on any accepted input':
+    inputs here are mutated encodings (non-minimal varints, odd booleans, nulls in odd places, spliced bytes) that the decoder
+    happens to accept; no reference is needed, only w(r(b)) == w(r(w(r(b))))."""
+    from kio.serial import entity_reader
+
+    from .faults import _mutate
+
+    g = gen.Gen(rng, "wire", big_prob=0.0, long_arrays=False)
+    bases = []
+    for tree in [g.struct(spec) for _ in range(4)]:
+        _strip_extras(tree)
+        raw, layout = refcodec.encode(spec, tree)
+        if len(raw) <= 4096:
+            bases.append((raw, layout))
+    if not bases:
+        return
+    reader = entity_reader(cls)
+    for _ in range(n):
+        raw, layout = rng.choice(bases)
+        data, kind = _mutate(rng, raw, layout, rng.choice(bases)[0])
+        try:
+            dec = reader(io.BytesIO(data))
+        except Exception:  # noqa: BLE001
+            continue  # rejected input: C10's business
+        res.count("accepted_mutated_inputs")
+        try:
+            e1 = kio_encode(cls, dec)
+            d2 = reader(io.BytesIO(e1))
+            e2 = kio_encode(cls, d2)
+        except Exception as exc:  # noqa: BLE001
+            res.violation(f"accepted-not-reencodable:{cls.__name__}:{_exc_key(exc)}",
+                          f"{walk.class_path(cls)}: the decoder accepted a ({kind}-mutated) input but the result does not survive encode/decode: {exc!r}",
+                          {"class": walk.class_path(cls), "input": data, "mutation": kind, "error": traceback.format_exc()})
+            continue
+        if e1 != e2:
+            res.violation(f"accepted-not-idempotent:{cls.__name__}",
+                          f"{walk.class_path(cls)}: decode-then-encode is not idempotent on an accepted ({kind}-mutated) input (first difference at byte {refcodec.first_diff(e1, e2)})",
+                          {"class": walk.class_path(cls), "input": data, "mutation": kind, "e1": e1, "e2": e2})
 
 
 def _strip_extras(t: object) -> None:
